@@ -98,5 +98,17 @@ k("K77", "C13", "datacodec/conversions.go", "\tif float64(float32(val)) != val {
 k("K78", "C13", "datacodec/conversions.go", "\tif parsed, err := strconv.ParseInt(val, 10, 16); err != nil {", "\tif parsed, err := strconv.ParseInt(val, 10, 32); err != nil {",
   "narrowing:datacodec.stringToInt16", "parse width wider than the target")
 
+# ---- C08
+k("K20", "C08", "compression/lz4/lz4.go", "i < compressedLength*maxCompressionRatio*2; i *= 2 {", "i <= compressedLength*8; i *= 2 {",
+  "lz4-sizing:compression/lz4.decompress", "growth loop gives up at 8x")
+k("K21", "C08", "compression/lz4/lz4.go", "\t\tdecompressedMessage := make([]byte, decompressedLength)", "\t\tdecompressedMessage := make([]byte, 4*len(compressedMessage))",
+  "lz4-sizing:(compression/lz4.Compressor).DecompressWithLength", "destination guessed from the input size")
+k("K79", "C08", "compression/lz4/lz4.go", "const maxCompressionRatio = 255", "const maxCompressionRatio = 100",
+  "ratio-guard", "legitimate ratios above 100 rejected")
+k("K80", "C08", "compression/lz4/lz4.go", "i < compressedLength*maxCompressionRatio*2; i *= 2 {", "i < compressedLength*maxCompressionRatio*2; i *= 4 {",
+  "lz4-sizing:compression/lz4.decompress", "fourfold growth skips the last size (seeded C08-A)")
+k("K81", "C08", "compression/lz4/lz4.go", "i < compressedLength*maxCompressionRatio*2; i *= 2 {", "i <= compressedLength*maxCompressionRatio; i *= 2 {",
+  "lz4-sizing:compression/lz4.decompress", "bound tidied to <= 255x stops at 128x (seeded C06-B)")
+
 json.dump(C, open(os.path.join(os.path.dirname(os.path.abspath(__file__)), "controls.json"), "w"), indent=1)
 print(len(C), "controls")
